@@ -353,6 +353,11 @@ def run_c17_part(ctx):
         sid += 1
     scs.append(mk(sid, "migrate-configured", "migrate", [{"a": "Probe", "tag": 90}, call("c1", 11), {"a": "AnswerError", "tag": 11, "code": 303, "text": "PHONE_MIGRATE_2"},
                {"a": "Await", "c": "c1"}, {"a": "Settle"}], dc={"dc2": 2}))
+    # the repeated request is the same request: what it registered with the decoder (vector results) goes with it
+    for kind in ("vecint", "vecobj", "bool"):
+        sid += 1
+        scs.append(mk(sid, "migrate-configured-" + kind, "migrate", [{"a": "Probe", "tag": 90}, call("c1", 11, kind),
+                   {"a": "AnswerError", "tag": 11, "code": 303, "text": "PHONE_MIGRATE_2"}, {"a": "Await", "c": "c1"}, {"a": "Settle"}], dc={"dc2": 2}))
     sid += 1
     scs.append(mk(sid, "migrate-unconfigured", "migrate", [{"a": "Probe", "tag": 90}, call("c1", 11),
                {"a": "AnswerError", "tag": 11, "code": 303, "text": "PHONE_MIGRATE_9", "what": "anyerror"}, {"a": "Await", "c": "c1"}, {"a": "Settle"}], dc={"dc2": 2}))
